@@ -40,7 +40,9 @@ def scenarios(ctx, n):
         w, m, v, sc = gen.gmm_params(r, C, D)
         x = gen.maybe_int(r, gen.sample_data(r, w, m, v, N), p=0.35)
         perm = r.permutation(N) if i % 3 == 2 else np.arange(N)
-        out.append(dict(C=C, D=D, w=w, m=m, v=v, x=x, x_dtype=str(x.dtype), sizes=sizes, perm=perm))
+        # the machine's count threshold is an M-step setting: statistics do not depend on it
+        mvt = float(r.choice([gen.EPS, gen.EPS, 0.5, 3.0]))
+        out.append(dict(C=C, D=D, w=w, m=m, v=v, x=x, x_dtype=str(x.dtype), sizes=sizes, perm=perm, mvt=mvt))
     return out
 
 
@@ -48,7 +50,7 @@ def impl_run(sc):
     import dask
     import dask.array as da
 
-    g = gen.mk_gmm(sc["w"], sc["m"], sc["v"])
+    g = gen.mk_gmm(sc["w"], sc["m"], sc["v"], thr=gen.EPS, mean_var_update_threshold=sc.get("mvt", gen.EPS))
     x = sc["x"]
     xp = x[sc["perm"]]
     blocks = gen.split(xp, sc["sizes"])
@@ -183,7 +185,7 @@ def oracle(sc):
 
     w, m, v = (np.asarray(sc[k], dtype=float) for k in ("w", "m", "v"))
     x = np.asarray(sc["x"]).astype(sc.get("x_dtype", "float64"))  # the array the implementation is given (its dtype is part of the input)
-    g = gen.mk_gmm(w, m, v)
+    g = gen.mk_gmm(w, m, v, thr=gen.EPS, mean_var_update_threshold=float(sc.get("mvt", gen.EPS)))
     perm = np.asarray(sc.get("perm", np.arange(len(x))), dtype=int)
     blocks = gen.split(x[perm], sc["sizes"])
     whole = core.impl(lambda: gen.stats_impl(g.acc_stats(x)))
@@ -240,7 +242,7 @@ def search(ctx):
         f = oracle(sc)
         ctx.case(["s", core.tolist(sc["x"]), sc["sizes"]], nontrivial=len(sc["sizes"]) > 1)
         if f:
-            f["input"] = {k: sc[k] for k in ("w", "m", "v", "x", "x_dtype", "sizes", "perm")}
+            f["input"] = {k: sc[k] for k in ("w", "m", "v", "x", "x_dtype", "sizes", "perm", "mvt") if k in sc}
             fails.append(f)
             if len(fails) >= 3:
                 break
